@@ -16,6 +16,8 @@ HISTORY = {
     "C09-signed-min-decode": "detected; note that one randomized test of the repository's own suite also catches it in some runs",
     "C14-foreach-empty-array-scope-leak": "missed at first: no loop over a zero-width array next to a shadowing binding; degenerate-loop contexts added to family X",
     "C17-pub-fn-no-params-skipped-if-callee": "missed at first: the parameterless pub fn of rule PubFnNoParams was never called; rule PubFnNoParamsCalled (defined before / after its caller) and a C06 subject added",
+    "C01-cast-wires-tuple-offset-target": "missed by the C01 command at first (C05 caught the compiler panic for 64-bit targets only): no value oracle existed for programs with unsuffixed literals; a differential oracle (every suffix subset vs the fully suffixed program) was added to family I and runs in both C05 and C01",
+    "C06-struct-size-memo-thread-local": "missed at first: every compilation was observed in isolation; compilation histories (ordered pairs / triples of programs sharing names, one thread of a fresh process) added",
     "C17-match-arms-share-scope": "missed at first: UseAfterScope only covered loop variables and block locals; replaced by a reference model of lexical scoping (every use x every name bound elsewhere but not in scope)",
 }
 rows = []
